@@ -86,7 +86,7 @@ def run(ctx: Ctx) -> None:
     ctx.explanation = 'Acquire/release obligations on every writer of instances_free_cores_mcpu.free_cores_mcpu in the effective SQL program and its Python mirror.'
     ctx.rule('R1', 'closed world of writers of free_cores_mcpu with their direction (-, +, reset, init)', 5)
     ctx.rule('R2', 'acquire once: decrement dominated by ROW_COUNT() = 1 right after the idempotent attempts insert; amount = the job\'s cores at each CALL add_attempt', 8)
-    ctx.rule('R3', 'release once: increment dominated by cur_end_time IS NULL read FOR UPDATE before end_time is written; amount = the job\'s cores; every single-attempt end releases', 8)
+    ctx.rule('R3', 'release once: increment dominated by cur_end_time IS NULL read FOR UPDATE before end_time is written; amount = the job\'s cores; every single-attempt end releases', 13)
     ctx.rule('R4', 'acquire and release enabled for the same instance states', 2)
     ctx.rule('R5', 'deactivate_instance ends all attempts of the instance and resets free cores to total cores', 3)
     ctx.rule('R6', 'Python mirror applies delta_cores_mcpu at every call site before acting on rc; optimistic decrement undone on failure', 7)
@@ -212,6 +212,16 @@ def run(ctx: Ctx) -> None:
         g_ok = [c for c, pol in guard if pol and any(text(x).lower() in [f'({ev_} is null)' for ev_ in evars] for x in sf.conjuncts(c))]
         ctx.check(bool(g_ok), 'R3', cons + '::once', f'the release is not guarded by `<end_time read from this attempt> IS NULL` (path condition {[text(c) for c, _ in guard]}): '
                   'a second completion/unschedule report for the same attempt would free the cores twice', rr.file, rr.line_of(st))
+        # the release may depend on nothing but the instance state and "this attempt had not ended yet": any further condition
+        # (job state, current attempt id, ..) means some ending attempts never give their cores back
+        extra = []
+        for c, pol in guard:
+            for x in sf.conjuncts(c) if pol else [c]:
+                names = {text(n).lower() for n in sf.cols_in(x)}
+                if not names <= ({'cur_instance_state'} | set(evars)):
+                    extra.append(('' if pol else 'NOT ') + text(x))
+        ctx.check(not extra, 'R3', cons + '::unconditional', f'the release additionally requires {extra}: an attempt that ends when that does not hold (e.g. an attempt that is not the job\'s current '
+                  'one) keeps its cores until the instance is deactivated', rr.file, rr.line_of(st))
         if evars:
             q = list(evars.values())[0]
             order_ok = 0 <= _flat_index(rr.ast.body, q) < _flat_index(rr.ast.body, s) and q.lock == 'FOR UPDATE'
@@ -222,7 +232,7 @@ def run(ctx: Ctx) -> None:
     # ---- R4 symmetry of the instance-state guards ---------------------------------------------------
     for name, states in sorted(rel_states.items()):
         lost = sorted((acq_states & {'pending', 'active'}) - states)
-        ctx.check(not lost, 'R4', f'{prog.routine(name).file}::{name}::release enabled for acquire states',
+        ctx.check(not lost, 'R4', f'sql::{name}::release enabled for acquire states',
                   f'cores are taken when the instance is in {sorted(acq_states & {"pending", "active"})} but {name} gives them back only when it is in {sorted(states & {"pending", "active"})}: '
                   f'an attempt that ends while its instance is {lost} leaves free_cores_mcpu below total - live attempts until the instance is deactivated',
                   prog.routine(name).file, prog.routine(name).line)
